@@ -2,6 +2,7 @@ import WhVerif.Util.Proto
 import WhVerif.Model.C11
 import WhVerif.Model.C11Run
 import WhVerif.Spec.C11
+import WhVerif.Spec.C11Run
 namespace WhVerif.Driver.C11
 open Lean WhVerif.Proto WhVerif.C11
 
@@ -66,6 +67,25 @@ def chromJson (c : ChromOut) : Json :=
       | some (names, total, hist) => Json.mkObj [("names", ofList Json.str names), ("total", ofNat total),
           ("hist", ofList (fun (kc : Hap × Nat) => Json.arr #[ofNatList kc.1, ofNat kc.2]) hist)]
       | none => Json.null)]
+
+def blockSpecJson (b : Spec.BlockSpec) : Json :=
+  Json.mkObj [("positions", ofNatList b.positions), ("switches", ofNat b.switches),
+              ("sf", Json.arr #[ofNat b.sfSwitches, ofNat b.sfFlips]), ("hamming", ofNat b.hamming),
+              ("diff", ofNat b.diffGenotypes), ("bed", ofPairs b.bed)]
+
+def pairSpecJson (r : Spec.PairSpec) : Json :=
+  Json.mkObj [("common_het", ofNat r.commonHet), ("intersection_blocks", ofNat r.intersectionBlocks),
+              ("covered_variants", ofNat r.coveredVariants), ("assessed_pairs", ofNat r.assessedPairs),
+              ("switches", ofNat r.switches), ("sf", Json.arr #[ofNat r.sfSwitches, ofNat r.sfFlips]),
+              ("hamming", ofNat r.hamming), ("diff", ofNat r.diffGenotypes), ("largest_len", ofNat r.largestLen),
+              ("largest", match r.largest with | some b => blockSpecJson b | none => Json.null),
+              ("bed", ofPairs r.bed), ("blocks", ofList blockSpecJson r.blocks)]
+
+def chromSpecJson (c : Spec.ChromSpec) : Json :=
+  Json.mkObj [("chrom", Json.str c.chrom),
+    ("pairs", ofList (fun (p : Nat × Nat × Nat × Spec.PairSpec) =>
+        Json.mkObj [("i", ofNat p.1), ("j", ofNat p.2.1), ("het0", ofNat p.2.2.1), ("spec", pairSpecJson p.2.2.2)]) c.pairs),
+    ("bed", ofList (fun (b : Nat × Nat × Nat × Nat) => ofNatList [b.1, b.2.1, b.2.2.1, b.2.2.2]) c.bed)]
 
 def flag (j : Json) (k : String) : Bool := (getBool? j k).getD false
 
@@ -176,5 +196,18 @@ def handle (op : String) (j : Json) : Option Json :=
       | .error e => some (Json.mkObj [("error", Json.str (runErrorName e))])
       | .ok cs => some (Json.mkObj [("chroms", ofList chromJson cs)])
     | _, _, _, _ => some badInput
+  else if op == "c11.runspec" then
+    -- the DEFINITION of the pairwise report (Spec/C11Run.lean), diploid; same request as `c11.run`
+    match getNat? j "ploidy", getBool? j "ignore", getBool? j "only_snvs", (getList? j "files").bind (·.mapM parseFile) with
+    | some p, some ig, some os, some files =>
+      let o : Opts := ⟨p, getStr? j "sample", ig, os⟩
+      match Spec.runSpec o files with
+      | .error e => some (Json.mkObj [("error", Json.str (runErrorName e))])
+      | .ok cs => some (Json.mkObj [("chroms", ofList chromSpecJson cs)])
+    | _, _, _, _ => some badInput
+  else if op == "c11.pairspec" then
+    match (getObj? j "t0").bind parseTable, (getObj? j "t1").bind parseTable with
+    | some t0, some t1 => some (pairSpecJson (Spec.pairSpec t0 t1))
+    | _, _ => some badInput
   else none
 end WhVerif.Driver.C11
